@@ -85,8 +85,12 @@ def profile_ids(draw):
 
 @st.composite
 def profile_unrepresentable(draw):
-    k = draw(st.sampled_from(["longname", "longname_dir", "major", "minor", "hl_dir", "hl_missing", "hl_cycle", "xattr_key"]))
+    k = draw(st.sampled_from(["longname", "longname_dir", "major", "minor", "hl_dir", "hl_missing", "hl_cycle", "xattr_key", "set_id"]))
     nodes = [_dir(b"d"), _file(b"d/f", ("lit", b"abc"))]
+    if k == "set_id":
+        # a forced owner that is not a 32 bit number (too large, negative, not a number at all); the largest id and hexadecimal are fine
+        v = draw(st.sampled_from(["4294967296", "99999999999999999999", "-5", "abc", "12x", "", 4294967295, "0x10"]))
+        return dict(kind=k if isinstance(v, str) and v != "0x10" else "set_id_ok", nodes=nodes, set_id=(draw(st.sampled_from(["set_uid", "set_gid"])), 16 if v == "0x10" else v, v))
     if k == "xattr_key":
         # (given through the xattr file; the longest representable name is 65535 bytes behind the prefix)
         ln = draw(st.sampled_from([65535, 65536, 65537, 70000, 131072 + 5]))
@@ -187,6 +191,11 @@ def cases(draw, tier="quick", force_sel=None):
             case["unrep_kind"] = u["kind"]
             if u.get("xattr_file"):
                 case["xattr_file"] = u["xattr_file"]
+            if u.get("set_id"):
+                for k_ in ("set_uid", "set_gid", "all_root"):
+                    o.pop(k_, None)
+                o[u["set_id"][0]] = u["set_id"][1]
+                o["set_id_spelling"] = u["set_id"][2]
         if case["mode"] == "file":
             o.setdefault("quote_all", False)
             o.setdefault("loc_style", 0)
